@@ -88,7 +88,7 @@ meta_key = st.sampled_from(("model", "model_params", "study", "year", "zfit", "n
 def fs_case(draw):
     pdg = draw(st.integers(0, 3)) == 0
     table = N.pdg_names() if pdg else N.evtgen_names()
-    k = draw(st.integers(1, 8))
+    k = draw(st.sampled_from((0,) + tuple(range(1, 9)) * 3))  # now and then an empty final state
     names = []
     for _ in range(k):
         c = draw(st.integers(0, 9))
@@ -104,7 +104,10 @@ def fs_case(draw):
             # labels that differ from a particle name only by white space, or contain some, are unknown labels like any other
             # (they can only be given in a list or a mapping: the string form splits at white space)
             base = draw(st.sampled_from(table))
-            names.append(draw(st.sampled_from((" " + base, base + " ", base + "\n", "\t" + base, "my particle", base + " " + base, " "))))
+            cand = draw(st.sampled_from((" " + base, base + " ", base + "\n", "\t" + base, "my particle", base + " " + base, " ",
+                                         base.lower(), base.upper(), base.swapcase(), base.lower(), base.upper())))
+            # a name of the table in another letter case is an unknown label too (unless that spelling is itself in the table)
+            names.append(cand)
     # particle/antiparticle pairs in the same final state (with unequal counts) are a class of
     # their own: the name set is then closed under conjugation while the multiset is not
     ref = ref_pdg_conj if pdg else N.ref_conj
@@ -176,7 +179,7 @@ def check_fs(case, rec):
         raise Mismatch("C04:mode-metadata", "metadata not preserved", exp_meta, got_meta)
     if before != after:
         raise Mismatch("C04:input-mutated", "decay mode changed by charge_conjugate()", before, after)
-    nt = max(case["mult"]) >= 2 and any(ref(n) != n for n in src)
+    nt = max(case["mult"] or [0]) >= 2 and any(ref(n) != n for n in src)
     rec.case(case, nt, ["pdg-names" if pdg else "evtgen-names", "how-" + case["how"],
                         "has-unknown" if any(ref(n).startswith("ChargeConj(") for n in src) else "all-known",
                         "meta-nonempty" if meta else "meta-empty",
